@@ -268,7 +268,7 @@ Fixpoint drain (two_keys : bool) (fuel : nat) (sh : shell) (sched : list outcome
 
 (** enough for any queue: an output adds at most one manager call, whose outputs
     add at most one more *)
-Definition drain_fuel (sh : shell) : nat := 3 * length (sh_q sh) + 64.
+Definition drain_fuel (sh : shell) : nat := 12 * length (sh_q sh) + 12.
 
 Inductive event :=
 | EClient (src : addr) (p : list N)            (* one datagram of ingest_client *)
